@@ -77,6 +77,11 @@ impl Tags {
     ) -> Result<&'a Tags, Error> {
         let numtags = parts.len();
         let length = Self::output_size_needed(parts);
+        // The section length, tag count, offsets and string lengths are all u16 fields
+        // (and all bounded by the section length)
+        if length > u16::MAX as usize {
+            return Err(InnerError::OutOfRange(length).into());
+        }
         if output.len() < length {
             return Err(InnerError::BufferTooSmall(length).into());
         }
